@@ -252,7 +252,7 @@ def c06(tier, seed):
                     distinct.add((e["iterations"], e["status"], e["run"]))
             samples += read_ndjson(sm)[:2]
     kfail = binom_tail_threshold(nruns)
-    env = {"KFAIL": str(kfail), "ENVELOPE_ALL": "30", "ENVELOPE_SYM": "20"}
+    env = {"KFAIL": str(kfail), "ENVELOPE_ALL": "24", "ENVELOPE_SYM": "16"}
     r = _dist_run(summary_all, env)
     res.coverage = {"evaluations": nruns, "distinct_nontrivial": len(distinct),
                     "rule": "family G (planted strictly feasible primal-dual pair, m >= 2n+2, n <= 60, magnitudes <= 1e3, "
